@@ -1,6 +1,7 @@
 """C15 - the same text gives the same result however it is supplied (str / list / file object / CLI; final newline or not)."""
 import io
 import os
+import zlib
 import shutil
 import subprocess
 import sys
@@ -96,16 +97,19 @@ def check_inproc(ctx, text, rname, source, tmpdir):
     return ref
 
 
-def run_cli(paths, rname, cwd):
+def run_cli(paths, rname, cwd, hashseed=1):
     env = dict(os.environ)
     env['PYTHONPATH'] = REPO
     env['PYTHONIOENCODING'] = 'utf-8'
+    # a command-line run is another process with another string-hash seed: output that follows set / dict-of-hash order shows
+    # (the harness itself runs with PYTHONHASHSEED=0; the seed of a run is derived from the texts, so a case replays)
+    env['PYTHONHASHSEED'] = str(hashseed)
     cmd = [sys.executable, '-X', 'dev', '-W', 'error::ResourceWarning', '-m', 'mistletoe', '-r', CLI_PATH[rname]] + paths
     p = subprocess.run(cmd, capture_output=True, env=env, cwd=cwd, timeout=120)
     return p.returncode, p.stdout, p.stderr
 
 
-def run_cli_inprocess(paths, rname, cwd):
+def run_cli_inprocess(paths, rname, cwd, hashseed=None):
     """mistletoe.cli.main in this process, stdout captured at the byte level (the CLI writes to sys.stdout.buffer)."""
     import io
     from mistletoe import cli
@@ -156,7 +160,7 @@ def check_cli(ctx, texts, rname, source, tmpdir, repeat=False, inprocess=False):
         ctx.count('ambient', 'C01:' + mt.exc_site(e))
         return
     try:
-        rc, out, err = (run_cli_inprocess if inprocess else run_cli)([names[i] for i in order], rname, tmpdir)
+        rc, out, err = (run_cli_inprocess if inprocess else run_cli)([names[i] for i in order], rname, tmpdir, 1 + zlib.crc32(''.join(texts).encode('utf-8', 'replace')) % 4000)
     except subprocess.TimeoutExpired:
         ctx.note('a CLI invocation hit the 120 s wall-clock watchdog (inconclusive for that case)')
         ctx.count('cli', 'watchdog')
@@ -208,7 +212,9 @@ def pick(rng, gen):
 
 
 FIRST_USE = ['这是**“重要”**。\n', 'so-called*“experts”* agree\n', '「*(aside)*」 a*“b”*c\n', '&copy; &Aacute; &#x1F600; &nosuch;\n', '[ẞ]\n\n[SS]: /u\n', '\tcode\n\n- a\n\tb\n',
-             '*a* **b** `c` [d](e) <f@g.h> ~~s~~ <b>x</b> \\* &amp;\n', '| a |\n|---|\n| b |\n', '¡*hola*! «*x*» …*y*…\n', '[Ünï]: /u "t"\n\n[ünï] [ÜNÏ][]\n']
+             '*a* **b** `c` [d](e) <f@g.h> ~~s~~ <b>x</b> \\* &amp;\n', '| a |\n|---|\n| b |\n', '¡*hola*! «*x*» …*y*…\n', '[Ünï]: /u "t"\n\n[ünï] [ÜNÏ][]\n',
+             # (every optional piece of a LaTeX preamble at once)
+             '~~s~~ ![i](/s) [l](/u) `c`\n\n| a |\n|---|\n| b |\n\n> q\n\n- i\n\n```sh\nx\n```\n\n# h\n']
 
 
 def run(ctx):
@@ -232,7 +238,7 @@ def run(ctx):
         # first document what they give every later one
         for i, w in enumerate(FIRST_USE):
             if i % ctx.nshards == ctx.shard:
-                for r in ('Html', 'Markdown'):
+                for r in ('Html', 'Markdown', 'LaTeX'):
                     check_cli(ctx, [w], r, 'first-use', tmpdir)
                 check_cli(ctx, [w, 'plain\n', w], 'Html', 'first-use', tmpdir)
         for i, ex in enumerate(workloads.spec()):
